@@ -19,6 +19,7 @@ import re
 import shutil
 import subprocess
 import tempfile
+import time
 
 from harness import common
 
@@ -373,13 +374,13 @@ GENERATED_LOOKALIKES = ["y", "y_0", "y_1", "y_01", "y__0", "y_", "Y", "Y_0", "y_
                         "lploc_y", "lploc_y_0", "LPLOC_y", "drtf_y", "local", "localy", "self", "global_y",
                         "state_y", "p_y", "dagrt_var", "dagrt_var_0", "ret_state_y", "t", "dt", "id", "id_y", "if", "in", "None", "end", "run",
                         "<state>y", "<state>Y", "<state>y_0", "<p>y", "<p>Y", "<ret_state>y", "<ret_time>y",
-                        "<ret_time_id>y", "<ret_time>id_y", "<t>", "<dt>", "<func>y", "<func>Y", "<func>y_0",
+                        "<ret_time_id>y", "<ret_time>id_y", "<t>", "<dt>", "dagrt_t", "dagrt_dt", "self.t", "<func>y", "<func>Y", "<func>y_0",
                         "<cond>y", "<builtin>y", "y^", "y*", "<state>y^", "<state>y*", "<p>y^", "<p>y*"]
 
 
 QUICK_LOOKALIKES = ["y", "y_0", "y_1", "y_01", "y_", "Y", "Y_0", "_y", "0", "lploc_y", "LPLOC_y", "drtf_y", "localy",
                     "dagrt_var", "<state>y", "<state>Y", "<state>y_0", "<p>y", "<func>y", "<func>Y", "y^", "y*",
-                    "<state>y^", "<state>y*", "if", "run", "t"]
+                    "<state>y^", "<state>y*", "if", "run", "t", "<t>", "dagrt_t", "dagrt_dt"]
 
 
 def random_name(rng):
@@ -704,7 +705,9 @@ def compiled_artefacts(rng):
 def main(tier):
     rep = common.Reporter(PID, tier)
     seed = common.seed()
+    t0 = time.time()
     ps = common.proof_stage(rep, PID, gen=["c13"])
+    t_proof = time.time() - t0
     known = common.known_findings(PID) or _fragment_findings()
 
     cases, dist = gen_cases(tier, seed)
@@ -737,6 +740,7 @@ def main(tier):
                        "oracle": f2,
                        "replay": "PYTHONPATH=/repo /venv/bin/python -m harness.main C13 --replay <this file>"})
 
+    t_impl = time.time() - t0 - t_proof
     # compiled artefacts (second, independent legality / distinctness check)
     bad_art, art_cov = compiled_artefacts(random.Random(seed * 31 + 5))
     for what, err, keys in bad_art:
@@ -749,11 +753,13 @@ def main(tier):
     if os.path.exists(os.path.join(common.COQ, "model", "Names.vo")) and os.path.exists(
             os.path.join(common.COQ, "gen", "GenC13.vo")):
         terms = [case_term(cases[i], results[i]) for i in idx]
-        mism, n_eval, errors = common.eval_cases(PID, HEADER, terms, "chk", shard=max(300, len(terms) // 48 + 1))
+        mism, n_eval, errors = common.eval_cases(PID, HEADER, terms, "chk",
+                                                 shard=min(700, max(300, len(terms) // 48 + 1)))
         mism = [idx[i] for i in mism]
     else:
         errors = ["model not built"]
 
+    t_coq = time.time() - t0 - t_proof - t_impl
     tie_broken = bool(mism or errors)
     if (not ps["ok"] or tie_broken) and not rep.violations:
         detail = {"what": "proof obligation or model/implementation correspondence no longer checks; "
@@ -786,6 +792,8 @@ def main(tier):
         oracle_failures=n_fail,
         traces_validated_against_impl=n_eval, model_impl_disagreements=len(mism),
         input_distribution=dist, compiled_artefacts=art_cov,
+        wall_split_s={"proof_stage": round(t_proof, 1), "implementation_and_oracle": round(t_impl, 1),
+                      "artefacts_and_coq_correspondence": round(t_coq, 1)},
         samples=[{"case": [cases[i][0], [list(op) for op in cases[i][1]]], "impl": results[i]} for i in
                  (0, len(cases) // 2, len(cases) - 1)],
         exhaustive=False,
